@@ -5,6 +5,7 @@ package lsp
 
 import (
 	"context"
+	"errors"
 	"fmt"
 	"io"
 	"log/slog"
@@ -34,6 +35,7 @@ type stubGopls struct {
 	k       *kernel.Kernel
 	mu      sync.Mutex
 	texts   map[string]string
+	stale   map[string]bool // Go files whose last change gopls refused
 	changes int
 	log     []string
 }
@@ -47,9 +49,21 @@ func (g *stubGopls) DidOpen(ctx context.Context, p *lspp.DidOpenTextDocumentPara
 }
 
 func (g *stubGopls) DidChange(ctx context.Context, p *lspp.DidChangeTextDocumentParams) error {
-	g.k.Park("gopls", "didChange", relURI(string(p.TextDocument.URI)), nil)
+	d := g.k.Park("gopls", "didChange", relURI(string(p.TextDocument.URI)), nil)
+	if d.Op == "fail" {
+		// the connection to gopls hiccups: this one notification is refused (gopls is then behind
+		// until the next change it accepts, which carries the whole text)
+		g.mu.Lock()
+		if g.stale == nil {
+			g.stale = map[string]bool{}
+		}
+		g.stale[string(p.TextDocument.URI)] = true
+		g.mu.Unlock()
+		return errGopls
+	}
 	g.mu.Lock()
 	defer g.mu.Unlock()
+	delete(g.stale, string(p.TextDocument.URI))
 	g.changes++
 	for _, c := range p.ContentChanges {
 		if c.Range != nil {
@@ -60,6 +74,8 @@ func (g *stubGopls) DidChange(ctx context.Context, p *lspp.DidChangeTextDocument
 	}
 	return nil
 }
+
+var errGopls = errors.New("sim: gopls refused the notification")
 
 // uriBase is the workspace prefix of the run in progress; it may contain a random directory
 // name, which must stay out of the event log.
@@ -355,7 +371,9 @@ func run(rc *kernel.RunCtx, k *kernel.Kernel) map[string]any {
 	})
 	defer simhook.SetYield(nil)
 	// the editor has one or two documents d.open; d is the one the current action is about
-	base := "file:///w"
+	// URIs as editors spell them: plain, or with percent-escapes (a drive colon, a space, a
+	// non-ASCII letter)
+	base := []string{"file:///w", "file:///w", "file:///c%3A/my%20code", "file:///home/z%C3%BC/w"}[t.Choose(4, "uri-shape")]
 	if onDisk {
 		base = "file://" + wsRoot
 	}
@@ -575,8 +593,11 @@ func run(rc *kernel.RunCtx, k *kernel.Kernel) map[string]any {
 		if d.haveGood {
 			stub.mu.Lock()
 			got, have := stub.texts[d.goURI]
+			behind := stub.stale[d.goURI]
 			stub.mu.Unlock()
-			if !have || got != d.lastGood {
+			if behind {
+				// gopls refused the last change: it is behind through no fault of the server
+			} else if !have || got != d.lastGood {
 				rc.Fail("C17/go-code-stale", "gopls holds Go text that is not the generation of the latest parseable document (have=%v, %d vs %d bytes)\n history: %s", have, len(got), len(d.lastGood), strings.Join(history, "\n   "))
 				return
 			}
@@ -659,7 +680,15 @@ func run(rc *kernel.RunCtx, k *kernel.Kernel) map[string]any {
 				}})
 				continue
 			}
-			acts = append(acts, action{wRelease, func() { k.Run(p, kernel.Decision{}) }})
+			acts = append(acts, action{wRelease, func() {
+				if p.Name == "gopls" && p.Kind == "didChange" && t.Chance(1, 12, "gopls-refuses") {
+					k.Count("fault_gopls_refused_a_change", 1)
+					history = append(history, "gopls refuses a change")
+					k.Run(p, kernel.Decision{Op: "fail"})
+					return
+				}
+				k.Run(p, kernel.Decision{})
+			}})
 		}
 		if nEdits < maxEdits {
 			acts = append(acts, action{wSend, func() {
